@@ -485,10 +485,18 @@ func decodeCase(out *Out, t *Target, g *vval.StreamGen, bs []byte, into *vval.Va
 	hx := "x" + hex.EncodeToString(bs)
 	intoS := into.String()
 	flags := flagStr(merge, discard)
+	staleNote := ""
 	replay := func(cmd string) string {
-		return t.S.Line() + "\n" + cmd + " " + t.S.ID + " 0 " + flags + " " + hx + " " + intoS + "\n# type " + t.Full + " features " + fk
+		return t.S.Line() + "\n" + cmd + " " + t.S.ID + " 0 " + flags + " " + hx + " " + intoS + "\n# type " + t.Full + " features " + fk + staleNote
 	}
 	msg := t.B.ToMessage(0, into)
+	if merge && len(bs)%2 == 0 {
+		staleNote = "\n# the merge target's non-nil lists were given spare capacity holding stale elements past len (vval.AddStaleCapacity)"
+		// the target of a Merge decode as a caller that recycles messages leaves it: lists with spare capacity
+		// whose slots past len hold stale elements (not part of the value, must not influence the result)
+		vval.AddStaleCapacity(msg, 1)
+		out.Count("merge_targets_with_stale_capacity")
+	}
 	input := append([]byte(nil), bs...)
 	var err error
 	start := time.Now()
